@@ -347,6 +347,10 @@ class Expr(Container):
         for t in self.terms:
             renamed += t.rename_tensor(current, new, return_sympy=True)
         self._expr = renamed
+        # the new name might belong to a tensor with known bra-ket
+        # (anti)symmetry -> apply it to the renamed tensors
+        if new in self._sym_tensors or new in self._antisym_tensors:
+            self._apply_tensor_braket_sym()
         return self
 
     def expand_antisym_eri(self) -> 'Expr':
